@@ -5,6 +5,7 @@ import (
 	"encoding/json"
 	"fmt"
 	"os"
+	"path/filepath"
 	"strings"
 	"sync"
 	"testing"
@@ -39,13 +40,20 @@ func histInv(s *ss.State) (string, string) {
 	w, ok := histCache[s.Obs]
 	histMu.Unlock()
 	if !ok {
-		lin, why := pbkvs.CheckHistory(s.Obs)
+		lin, class, why := pbkvs.CheckHistory(s.Obs)
 		if !lin {
 			w = why
+			if class != "" {
+				w = "\x00" + class + "\x00" + why
+			}
 		}
 		histMu.Lock()
 		histCache[s.Obs] = w
 		histMu.Unlock()
+	}
+	if strings.HasPrefix(w, "\x00") {
+		f := strings.SplitN(w, "\x00", 3)
+		return "linearizability/" + f[1], f[2]
 	}
 	if w != "" {
 		return "linearizability/" + shape(s.Obs), w
@@ -59,6 +67,9 @@ func shape(obs string) string {
 	var parts []string
 	for _, e := range strings.Split(strings.TrimSuffix(obs, ";"), ";") {
 		f := strings.Split(e, ":")
+		if f[0] == "s" {
+			continue // (re)transmissions are not part of the client-visible shape
+		}
 		if f[0] == "i" {
 			parts = append(parts, fmt.Sprintf("c%s.%s(%s,%s)", f[1], f[3], f[4], f[5]))
 		} else {
@@ -106,6 +117,8 @@ func TestCheck(t *testing.T) {
 				runCfg{pbkvs.Config{NumReplicas: 2, NumClients: 2, ExploreFail: true, Input: spec3}, 0, "2rep-2cli-fail"},
 				runCfg{pbkvs.Config{NumReplicas: 3, NumClients: 2, ExploreFail: true, Input: spec3}, 0, "3rep-2cli-fail"},
 				runCfg{pbkvs.Config{NumReplicas: 4, NumClients: 1, ExploreFail: true, Input: spec3}, 0, "4rep-1cli-fail"},
+				// a get that pins the first put before the second one: makes a re-applied first put visible (known finding)
+				runCfg{pbkvs.Config{NumReplicas: 2, NumClients: 2, ExploreFail: true, Input: []pbkvs.Req{spec3[0], spec3[2], spec3[1], spec3[2]}}, 0, "2rep-2cli-put-get-put-get-fail"},
 				runCfg{pbkvs.Config{NumReplicas: 3, NumClients: 3, ExploreFail: true, Input: append(append([]pbkvs.Req{}, spec3...), pbkvs.Req{Type: "get", Key: "KEY1"})}, 0, "3rep-3cli-fail"})
 		}
 		if j := os.Getenv("VERIF_C14_CFGS"); j != "" {
@@ -114,11 +127,41 @@ func TestCheck(t *testing.T) {
 				t.Fatal(err)
 			}
 		}
+		seen := map[string]bool{}
+		// committed witnesses of recorded findings are replayed first (deterministic, cheap): while the
+		// defect is present the finding shows on every run, whatever depth the search reaches in its budget
+		witnessReplayed := 0
+		if files, _ := filepath.Glob(filepath.Join(os.Getenv("VERIF_DIR"), "replays", "C14", "known-*.json")); len(files) > 0 {
+			for _, f := range files {
+				b, err := os.ReadFile(f)
+				if err != nil {
+					continue
+				}
+				var w struct {
+					Replay replay `json:"replay"`
+				}
+				if json.Unmarshal(b, &w) != nil {
+					continue
+				}
+				func() {
+					defer func() { recover() }() // a witness that no longer fits the code is simply stale
+					sys := pbkvs.New(w.Replay.Cfg.Config)
+					sys.Observe = pbkvs.ObserveHistory
+					states, _, _ := sys.Replay(w.Replay.Path)
+					witnessReplayed++
+					for _, s := range states {
+						if k, why := histInv(s); k != "" && !seen[k] {
+							seen[k] = true
+							res.Violations = append(res.Violations, hres.Viol{Key: k, What: why, Replay: w.Replay})
+						}
+					}
+				}()
+			}
+		}
 		var share time.Duration
 		var states, trans, validated int64
 		exhaustive := true
 		per := []any{}
-		seen := map[string]bool{}
 		var samples []any
 		for ci, cfg := range cfgs {
 			// every instance gets an equal share of what is left (early finishers leave their time to the rest)
@@ -173,7 +216,7 @@ func TestCheck(t *testing.T) {
 			}
 		}
 		res.Coverage = map[string]any{"states": states, "transitions": trans, "traces_validated_against_impl": validated, "samples": samples, "configs": per, "exhaustive": exhaustive,
-			"distinct_histories_checked": len(histCache)}
+			"distinct_histories_checked": len(histCache), "known_witness_paths_replayed": witnessReplayed}
 		return res
 	})
 }
